@@ -205,6 +205,33 @@ class MS(set):
     """set subclass with attributes"""
 
 
+class MO(collections.OrderedDict):
+    """subclass of a container that has its own representer entry, with attributes"""
+
+
+class XInt(int):
+    """subclasses of the scalar types that have their own representer entry, with attributes"""
+
+
+class XStr(str):
+    pass
+
+
+class XFloat(float):
+    pass
+
+
+class XBytes(bytes):
+    pass
+
+
+class XComplex(complex):
+    pass
+
+
+XS_BY_KIND = {'i': [XInt, XFloat], 'i0': [XInt, XFloat], 's': [XStr], 's0': [XStr], 'b': [XBytes], 'c': [XComplex]}
+
+
 class Color(enum.Enum):
     RED = 1
     GREEN = 'g'
@@ -220,7 +247,7 @@ def func(x=None):
 
 
 SHAPES = ['list', 'dict', 'tuple', 'set', 'P', 'PA', 'S', 'SD', 'GS', 'GT', 'GV', 'GC', 'GL', 'NA', 'NT', 'R2', 'R3', 'RL', 'RD', 'CR',
-          'ML', 'MD', 'MS', 'OD']
+          'ML', 'MD', 'MS', 'OD', 'MO', 'XS']
 IMMUTABLE = {'tuple', 'NA', 'NT'}          # built from their positional section at creation time
 # representatives per leaf kind (pairwise different over all kinds, so that a digest names its kind); the harness picks
 # one per occurrence (seeded).  i0 / s0 / z are the false leaves.
@@ -233,7 +260,7 @@ LEAVES = {
 SHAPE_OF = {list: 'list', dict: 'dict', tuple: 'tuple', set: 'set', P: 'P', S: 'S', SD: 'SD', GS: 'GS', GT: 'GT', GV: 'GV',
             GC: 'GC', GL: 'GL', PA: 'PA',
             NA: 'NA', NT: 'NT', R2: 'R2', R3: 'R3', RL: 'RL', RD: 'RD', CR: 'CR', ML: 'ML', MD: 'MD', MS: 'MS',
-            collections.OrderedDict: 'OD'}
+            collections.OrderedDict: 'OD', MO: 'MO', XInt: 'XS', XStr: 'XS', XFloat: 'XS', XBytes: 'XS', XComplex: 'XS'}
 
 
 class Unbuildable(Exception):
@@ -254,12 +281,17 @@ def build(graph, pick=None):
 
     shells = {'list': list, 'dict': dict, 'set': set, 'P': P, 'S': S, 'SD': SD, 'GS': GS, 'GT': GT, 'GV': GV, 'GC': GC, 'GL': GL, 'PA': PA,
               'R2': R2, 'R3': R3, 'RL': RL, 'RD': RD, 'CR': CR, 'ML': ML, 'MD': MD, 'MS': MS,
-              'OD': collections.OrderedDict}
+              'OD': collections.OrderedDict, 'MO': MO}
     for i, o in enumerate(graph):
-        if o['s'] not in IMMUTABLE:
+        if o['s'] == 'XS':                      # the class follows the kind of the value leaf
+            v = val(o['p'][0], i, 0)
+            cs = XS_BY_KIND[o['p'][0]['l']]
+            objs[i] = cs[(pick('XS', i, 0) if pick else 0) % len(cs)](v)
+            state[i] = 2
+        elif o['s'] not in IMMUTABLE:
             c = shells[o['s']]
             objs[i] = c.__new__(c)
-            if o['s'] == 'OD':
+            if o['s'] in ('OD', 'MO'):
                 objs[i].__init__()
             state[i] = 2
 
@@ -291,7 +323,7 @@ def build(graph, pick=None):
             x.extend(pv)
         elif s in ('set', 'MS'):
             x.update(pv)
-        elif s in ('dict', 'MD', 'OD', 'RD'):
+        elif s in ('dict', 'MD', 'OD', 'RD', 'MO'):
             for j, v in enumerate(pv):
                 x['k%d' % j] = v
         elif s == 'GT':
@@ -302,7 +334,7 @@ def build(graph, pick=None):
             x.__setstate__({'items': pv})
         elif s in ('R2', 'R3', 'CR'):
             x.__init__(*pv)
-        if s in ('P', 'S', 'SD', 'GS', 'NA', 'R3', 'RL', 'ML', 'MD', 'MS'):
+        if s in ('P', 'S', 'SD', 'GS', 'NA', 'R3', 'RL', 'ML', 'MD', 'MS', 'MO', 'XS'):
             for j, v in enumerate(av):
                 setattr(x, _aname(j), v)       # SD: 'a' is the slot, b, c... go to the instance dictionary
         elif s == 'PA':
@@ -405,6 +437,9 @@ def project(root):
         heap.append(rec)
         ids[id(x)] = me = len(heap)
         kids = []
+        for base in (int, float, str, bytes, complex):
+            if isinstance(x, base):             # instance of a subclass of a scalar type: the value goes into the digest
+                rec['dig'] = digest(base(x))
         if isinstance(x, tuple):
             kids += [kid('t', '', y, False) for y in x]
         elif isinstance(x, list):
